@@ -156,7 +156,7 @@ def runItems (st : State) : List EngItem → State × List String
     (r.1, out :: r.2)
 
 /-- `eng <first> <hasLeasePublisher 0|1> <event>...` → per-event outputs separated by ` | `, then the
-final table and cache stream ids -/
+final table and cache stream ids and the objects with a pending done-callback -/
 def cmdEng (args : List String) : String :=
   match args with
   | first :: lp :: evs =>
@@ -165,7 +165,9 @@ def cmdEng (args : List String) : String :=
       let r := runItems (init first lp) items
       let sids := (r.1.table.map (·.1)).toArray.qsort (· < ·) |>.toList
       let cs := (r.1.cache.map (·.1)).toArray.qsort (· < ·) |>.toList
-      s!"{" | ".intercalate r.2} || T={showNatList sids} C={showNatList cs}"
+      -- objects whose done-callback the model has scheduled and not yet seen run
+      let ps := (List.range r.1.heap.length).filter fun i => match r.1.heap[i]? with | some s => s.cb | none => false
+      s!"{" | ".intercalate r.2} || T={showNatList sids} C={showNatList cs} P={showNatList ps}"
     | _, _, _ => "bad-op"
   | _ => "bad-op"
 
